@@ -219,3 +219,9 @@ Definition model_view (c : case) :=
 (* the specification alone, for the direct oracle: is U entitled, are the restrictions in force justified *)
 Definition chk_spec (c : tables * bytes * list bytes * user * bool) : bool :=
   let '(t, sid, D, U, expect) := c in Bool.eqb (granted (world_of t) sid U D) expect.
+
+(* host-based decision: (trust_client_host, claimed, resolved, known_client_hosts pairs, key, signature ok,
+   validate_host_based_user) and whether the implementation accepted *)
+Definition chk_hostbased (c : bool * bytes * bytes * list (bytes * Z) * Z * bool * bool * bool) : bool :=
+  let '(trust, claimed, resolved, kh, k, sig_ok, user_ok, got) := c in
+  Bool.eqb (hb_decide trust claimed resolved kh k sig_ok user_ok) got.
